@@ -57,6 +57,7 @@ SecRule REQUEST_URI "@restpath /api/{kind}/{id}" "id:203,phase:1,pass,nolog,setv
 SecRule ARGS_GET:nid "@validateNid cl ^\d{7,8}-[\dk]$" "id:204,phase:2,pass,nolog,setvar:tx.nid=1"
 SecRule ARGS_GET:d "@streq 1" "id:210,phase:2,deny,status:403,log,auditlog"
 SecRule REQUEST_HEADERS:X-A "@contains evil" "id:211,phase:1,pass,log,t:urlDecode,t:lowercase,setvar:tx.hdr=+1"
+SecRule ARGS_GET "@rx ^(h)it$" "id:212,phase:2,pass,nolog,capture,multiMatch,t:trim,t:lowercase,t:uppercase,t:lowercase,setvar:tx.mm=+1,setvar:tx.mk_%{MATCHED_VAR_NAME}_%{TX.1}=%{MATCHED_VAR}/%{TX.0}"
 SecRule RESPONSE_BODY "@rx le+ak" "id:220,phase:4,pass,log,setvar:tx.rb=1"
 SecAction "id:230,phase:5,pass,nolog,setvar:tx.done=1"
 `
